@@ -210,27 +210,42 @@ fn run_step_with(boc: &Arc<BocData>, st: &Step, max_write: usize, hash_seed: u64
 
 /// Dates in the last rows of every surviving cache-like file, read leniently by the harness.
 pub fn tail_dates(disk: &Disk) -> Vec<Date> {
+    // Whatever the format of the cache files: every yyyy-mm-dd found in the last three and the first
+    // two lines of every file in the cache directory.
+    fn dates_in(line: &str, out: &mut Vec<Date>) {
+        let b = line.as_bytes();
+        let mut i = 0;
+        while i + 10 <= b.len() {
+            let w = &b[i..i + 10];
+            let shape = w.iter().enumerate().all(|(k, c)| if k == 4 || k == 7 { *c == b'-' } else { c.is_ascii_digit() });
+            if shape {
+                if let Ok(d) = acb::util::date::parse_standard_date(&line[i..i + 10]) {
+                    out.push(d);
+                    i += 10;
+                    continue;
+                }
+            }
+            i += 1;
+        }
+    }
     let mut out = vec![];
-    for (name, data) in disk.list_files(CACHE_DIR) {
-        if !name.contains("rates-") {
-            continue;
-        }
+    for (_name, data) in disk.list_files(CACHE_DIR) {
         let text = String::from_utf8_lossy(&data);
-        let lines: Vec<&str> = text.lines().collect();
+        let lines: Vec<&str> = text.lines().filter(|l| !l.trim().is_empty()).collect();
         for l in lines.iter().rev().take(3) {
-            if l.len() >= 10 {
-                if let Ok(d) = acb::util::date::parse_standard_date(&l[..10]) {
-                    out.push(d);
-                }
-            }
+            dates_in(l, &mut out);
         }
-        if let Some(l) = lines.first() {
-            if l.len() >= 10 {
-                if let Ok(d) = acb::util::date::parse_standard_date(&l[..10]) {
-                    out.push(d);
-                }
-            }
+        for l in lines.iter().take(2) {
+            dates_in(l, &mut out);
         }
+    }
+    out.sort();
+    out.dedup();
+    // keep it bounded: the newest few and the oldest
+    if out.len() > 8 {
+        let oldest = out[0];
+        out = out.split_off(out.len() - 7);
+        out.insert(0, oldest);
     }
     out
 }
@@ -772,8 +787,73 @@ impl Engine for C14 {
                     }
                 }
             }
-            with_world(|w| w.fs.disk = disk_after_a);
-            let _ = recover("later day", later, sc.later_published_today, &sig, &desc, st, &mut reference, &mut violations, &mut digest);
+            // A run in between that has nothing to do with the interrupted year: it looks up one date of
+            // ANOTHER year (and usually downloads and writes that year), completes normally, and only
+            // then does a run ask for the dates around the cut. (Every n-th distinct state.)
+            if sc.second_crash_every > 0 && distinct_states % sc.second_crash_every == 1 {
+                let years: BTreeSet<i32> = dates.iter().map(|d| d.year()).collect();
+                let other = (boc.cal.start_year..boc.cal.start_year + boc.cal.n_years as i32).rev().find(|y| !years.contains(y) && ymd(*y, 6, 15) < vtoday).or_else(|| Some(boc.cal.start_year - 1));
+                if let Some(oy) = other {
+                    with_world(|w| w.fs.disk = disk.clone());
+                    let mid = run_fx_process(FxPlan {
+                        data: boc.clone(),
+                        today: vtoday,
+                        published_today: sc.victim.published_today,
+                        force: false,
+                        cache: CacheKind::Csv,
+                        mem_in: MemState::new(),
+                        lookups: vec![ymd(oy, 6, 15)],
+                        app_rows: None,
+                        app_files: 1,
+                        app_console: false,
+                        app_legacy_date: false,
+                        app_date_fmt: 0,
+                        net_faults: vec![],
+                        server_today: None,
+                        clock_tz: None,
+                        now_shift: 0,
+                        fs_faults: FsFaultSpec::default(),
+                        knobs: Knobs::default(),
+                        hash_seed: sc.hash_seed ^ 9,
+                    });
+                    st.bump("sim.processes");
+                    if mid.panic.is_none() {
+                        st.bump("fault.unrelated_complete_run_between_crash_and_recovery");
+                        let sig_m = format!("{}; then a complete run that only touched another year", sig);
+                        let desc_m = format!("{}\nthen a run looked up {} (another year), completed normally, and only then the dates around the cut were asked for", desc, ymd(oy, 6, 15));
+                        let _ = recover("same day, after an unrelated complete run", vtoday, sc.victim.published_today, &sig_m, &desc_m, st, &mut reference, &mut violations, &mut digest);
+                    }
+                }
+            }
+            with_world(|w| w.fs.disk = disk_after_a.clone());
+            let obs_b = recover("later day", later, sc.later_published_today, &sig, &desc, st, &mut reference, &mut violations, &mut digest);
+            // The later-day run usually downloads again (new dates): it, too, may be killed while it
+            // writes, and a run one more day on recovers from that. (Every n-th distinct state.)
+            if sc.second_crash_every > 0 && distinct_states % sc.second_crash_every == 2 && obs_b.panic.is_none() {
+                let jb = &obs_b.proc.journal;
+                let wr: Vec<usize> = jb.iter().enumerate().filter_map(|(i, o)| if matches!(o, Op::Write { .. }) { Some(i) } else { None }).collect();
+                if !wr.is_empty() {
+                    let mut r3 = Rng::new(sc.cut_seed ^ dg ^ 0x33);
+                    let later2 = (later + Duration::days(1)).min(boc.last_day() + Duration::days(1));
+                    for _ in 0..sc.second_crash_samples {
+                        let cp3 = if r3.chance(1, 3) {
+                            CrashPoint::Prefix { k: r3.range(0, jb.len() as i64) as usize, cut: 0 }
+                        } else {
+                            let k = *r3.pick(&wr);
+                            let n = if let Op::Write { data, .. } = &jb[k] { data.len() } else { 1 };
+                            let cut = if n > 40 && r3.chance(1, 2) { n - 1 - r3.range(0, 39) as usize } else { r3.range(1, (n as i64 - 1).max(1)) as usize };
+                            CrashPoint::Prefix { k, cut }
+                        };
+                        let disk3 = cp3.materialise(&disk_after_a, jb);
+                        let (sig3, desc3) = describe_cut(&disk_after_a, jb, &cp3);
+                        with_world(|w| w.fs.disk = disk3);
+                        st.bump("fault.later_day_run_killed_while_writing_too");
+                        let sig_c = format!("later crash, during the later-day run's own cache write: {}", sig3);
+                        let desc_c = format!("{}\nthe same-day run recovered; then the later-day run was killed too: {}", desc, desc3);
+                        let _ = recover("one more day on, after the later-day run was killed", later2, sc.later_published_today, &sig_c, &desc_c, st, &mut reference, &mut violations, &mut digest);
+                    }
+                }
+            }
             let pos = sig.clone();
             st.state(&[&pos, if sc.prior.is_some() { "older-file" } else { "no-file" }]);
         }
@@ -910,6 +990,8 @@ impl Engine for C14 {
             "probe.recovery_downloaded_again",
             "probe.earlier_run_was_killed_too",
             "fault.second_crash_during_recovery_write",
+            "fault.unrelated_complete_run_between_crash_and_recovery",
+            "fault.later_day_run_killed_while_writing_too",
             "fault.write_error_disk_full",
             "fault.clock_set_ahead_in_an_earlier_killed_run",
         ];
